@@ -5,7 +5,7 @@ from __future__ import annotations
 import ast
 
 from ..astutil import (
-    call_name, calls_in, const_str, dotted, guard_atoms, lexical_guards, nested_functions, unparse, walk_local,
+    ancestors, call_name, calls_in, const_str, dotted, guard_atoms, lexical_guards, nested_functions, parent_map, unparse, walk_local,
 )
 from ..cfg import no_exc
 from ..report import Registry, sub
@@ -368,6 +368,10 @@ def r4(ctx):
 
 
 # -------------------------------------------------------------------------------------- C37-R5
+#: the mutator protocol of attribute impls (called by InstrumentedAttribute.__set__/__delete__ and by the backref handlers)
+IMPL_MUTATORS = {"set", "delete", "append", "remove", "pop"}
+
+
 def _self_key(node) -> bool:
     return isinstance(node, ast.Attribute) and dotted(node) == "self.key"
 
@@ -404,7 +408,7 @@ def _direct_events(fn, wanted):
     return out
 
 
-@R.rule("C37-R5", floor=6, template="T-PATH",
+@R.rule("C37-R5", floor=8, template="T-PATH",
         desc="every attribute impl mutator (set/delete/append/remove of the scalar, scalar-object and collection impls) "
              "delivers its before-mutation event (set/append/remove/bulk_replace: validators and the backref handlers "
              "run here and may raise) BEFORE it changes its own storage: no path leads from the storage change to "
@@ -436,7 +440,17 @@ def r5(ctx):
                         ev = _direct_events(h.node, wanted)
                         for evt in ev:
                             fires.append((call, evt))
+                elif isinstance(call.func, ast.Attribute) and call.func.attr.endswith("_with_event"):
+                    verb = call.func.attr[: -len("_with_event")]
+                    evt = {"append": "append", "remove": "remove", "clear": "remove"}.get(verb)
+                    ctx.require(evt is not None, f"{m.key}: unknown collection operation {call.func.attr}")
+                    fires.append((call, evt))
             if not fires:
+                if mname in IMPL_MUTATORS:
+                    n_inst += 1
+                    ctx.violation(f"{m.key}:event-before-storage",
+                                  f"changes the attribute's own storage ({'/'.join(sorted({k for _, k in muts}))}) without delivering any of the "
+                                  f"{sorted(wanted)} events: neither validators nor the backref handlers run, the other side is not updated", m.loc)
                 continue
             g = ctx.cfg(m)
             mut_nodes = sorted({i for n, _ in muts for i in g.nodes_containing(n)} | {i for n, _ in muts if isinstance(n, ast.stmt) for i in g.nodes_for(n)})
@@ -451,6 +465,119 @@ def r5(ctx):
                       f"({'/'.join(kinds)} of dict_[self.key]): a listener that rejects the operation leaves this side changed while no "
                       f"backref has run - the two sides disagree",
                       f"{'/'.join(evs)} delivered before {'/'.join(kinds)}", m.loc, g.describe_path(w) if w else None)
+
+
+
+# -------------------------------------------------------------------------------------- C37-R6
+def _dupe_threshold(ctx, fi):
+    """How many occurrences make `has_dupes`-like helper return True (2 for `count > 1`)."""
+    for n in walk_local(fi.node):
+        if isinstance(n, ast.If) and any(isinstance(x, ast.Return) and isinstance(x.value, ast.Constant) and x.value.value is True for x in n.body):
+            t = n.test
+            if isinstance(t, ast.Compare) and len(t.ops) == 1 and isinstance(t.comparators[0], ast.Constant) and isinstance(t.comparators[0].value, int):
+                k = t.comparators[0].value
+                if isinstance(t.ops[0], ast.Gt):
+                    return k + 1
+                if isinstance(t.ops[0], ast.GtE):
+                    return k
+    return None
+
+
+def _wrapper_phase(ctx, inner):
+    """{'single': phase, 'bulk': phase}: position of the remove event (`__del(..)`) relative to the underlying call
+    `fn(self, ..)` inside one instrumentation wrapper, separately for event sites that announce ONE removal and for
+    sites in a loop whose items are all removed by one underlying call after the loop ('bulk').
+    phase = 'before' | 'after' | 'mixed'."""
+    g = ctx.cfg(inner)
+    dels = [n.id for n in g.nodes if n.stmt is not None and isinstance(n.stmt, ast.stmt) and n.kind in ("stmt", "test", "for")
+            and any(isinstance(c.func, ast.Name) and c.func.id.endswith("__del") for p_ in _own(n.stmt) for c in calls_in(p_))]
+    fns = [n.id for n in g.nodes if n.stmt is not None and isinstance(n.stmt, ast.stmt) and n.kind in ("stmt", "test", "for")
+           and any(isinstance(c.func, ast.Name) and c.func.id == "fn" for p_ in _own(n.stmt) for c in calls_in(p_))]
+    if not dels or not fns:
+        return {}
+    pm = parent_map(inner)
+    out = {}
+    for d in dels:
+        after = g.witness(fns, [d], edge_ok=no_exc) is not None
+        before = g.witness([d], fns, edge_ok=no_exc) is not None
+        ph = "mixed" if (after and before) else ("after" if after else "before")
+        kind = "single"
+        for lp in [a for a in ancestors(pm, g.nodes[d].stmt) if isinstance(a, (ast.For, ast.While))]:
+            inside = {id(x) for x in ast.walk(lp)}
+            if any(id(g.nodes[i].stmt) not in inside and g.witness([d], [i], edge_ok=no_exc) is not None for i in fns):
+                kind = "bulk"
+        if kind in out and out[kind] != ph:
+            ph = "mixed"
+        out[kind] = ph
+    return out
+
+
+def _own(st):
+    from ..astutil import own_exprs
+    return own_exprs(st)
+
+
+@R.rule("C37-R6", floor=7, template="T-SIBLING",
+        desc="the backref 'remove' handler keeps the child's parent when ANOTHER occurrence of the child remains in the "
+             "parent's list; it decides that by counting occurrences in the live collection, which fixes the phase in "
+             "which the remove event must be delivered (count > 1 <=> item still present): every list remover "
+             "delivers the remove event in that phase")
+def r6(ctx):
+    f = ctx.func(BL)
+    regs = _registrations(ctx, f)
+    nf = nested_functions(f.node)
+    ctx.require("remove" in regs and regs["remove"][0] in nf, f"{BL}: remove handler not found")
+    h = nf[regs["remove"][0]]
+    st_p = h.args.args[0].arg
+    calls, env = _mirror_calls(h)
+    pops = [c for op, x, c in calls if op in ("pop", "remove")]
+    pm = f.module.parents()
+    tests = []
+    for mc in pops[:1]:
+        for t, pol in lexical_guards(pm, mc, stop=h):
+            for c in calls_in(t):
+                if c.args and isinstance(c.args[0], ast.Subscript) and dotted(c.args[0].value) == f"{st_p}.dict":
+                    tests.append(c)
+    hkey = f"{BL}.{h.name}:occurrence-test"
+    if not tests:
+        ctx.ok(hkey, "the handler does not consult the live collection (or has no mirror pop: C37-R1): no phase is presupposed")
+        presupposed = None
+    else:
+        c = tests[0]
+        target = ctx.index.resolve(f.module, call_name(c) or "")
+        fi = target if isinstance(getattr(target, "node", None), ast.FunctionDef) else None
+        ctx.require(fi is not None, f"{BL}.{h.name}: cannot resolve the occurrence test `{unparse(c.func)}`")
+        ctx.functions_analysed.add(fi.key)
+        k = _dupe_threshold(ctx, fi)
+        ctx.require(k in (1, 2), f"{fi.key}: occurrence threshold not understood")
+        presupposed = "before" if k == 2 else "after"
+        ctx.ok(hkey, f"`{unparse(c.func)}({unparse(c.args[0])}, ..)` is true from {k} occurrence(s): 'another one remains' holds iff the event is delivered {presupposed} the removal of exactly one item")
+    ld = ctx.func(f"{COLL}::_list_decorators")
+    n = 0
+    for name, deco in sorted(nested_functions(ld.node).items()):
+        inner = [x for x in deco.body if isinstance(x, ast.FunctionDef)]
+        if not inner:
+            continue
+        loc = f"{ld.module.path}:{deco.lineno}"
+        for kind, ph in sorted(_wrapper_phase(ctx, inner[0]).items()):
+            n += 1
+            key = f"{ld.key}.{name}:remove-event-phase" + ("[bulk]" if kind == "bulk" else "")
+            if presupposed is None:
+                ctx.ok(key, f"remove event {ph} the underlying call")
+            elif kind == "bulk":
+                ctx.violation(key,
+                              f"list.{name}() delivers the remove events of ALL items it removes {ph} ONE underlying call that removes them together, but the backref "
+                              f"handler {h.name} decides per event whether another occurrence of the child remains by counting occurrences in the live list: when "
+                              f"every occurrence of a child is removed by this one call each event sees the same list, so child.<backref> "
+                              + ("keeps pointing at the parent although the child has left the collection" if ph == "before" else "is judged on the final list only"), loc)
+            else:
+                ctx.check(ph == presupposed, key,
+                          f"list.{name}() delivers the remove event {ph} the underlying removal, but the backref handler {h.name} decides whether another "
+                          f"occurrence of the child remains by counting occurrences in the live list (true from {2 if presupposed == 'before' else 1}), which is "
+                          f"right only when the event comes {presupposed} the removal: removing one of two occurrences of a child this way "
+                          + ("clears child.<backref> although the child is still in the collection" if ph != "before" else "keeps child.<backref> although the child has left the collection"),
+                          f"remove event {ph} the underlying call, as the occurrence test presupposes", loc)
+    ctx.require(n >= 3, f"{ld.key}: list removers not recognised")
 
 
 # -------------------------------------------------------------------------------------- self-test
@@ -513,3 +640,35 @@ R.mutant("benign-reorder-listen", ATTR,
 R.mutant("benign-bulk-replace-rename", COLL,
          sub("    removals = existing_idset.difference(constants)\n", "    removals = existing_idset.difference(constants)\n    n_removed = len(removals)\n"),
          None)
+# --- C37-R5
+R.mutant("seed1-bulk-replace-event-after-store", ATTR,
+         sub("        self.dispatch.bulk_replace(state, new_values, evt, keys=new_keys)\n\n", "", count=1), "C37-R5")
+R.mutant("seed1-bulk-replace-event-moved-after-store", ATTR,
+         sub("        dict_[self.key] = user_data\n\n        collections.bulk_replace(",
+             "        dict_[self.key] = user_data\n\n        self.dispatch.bulk_replace(state, new_values, evt, keys=new_keys)\n        collections.bulk_replace("), "C37-R5")
+R.mutant("scalar-object-set-stores-before-event", ATTR,
+         sub("        value = self.fire_replace_event(state, dict_, value, old, initiator)\n        dict_[self.key] = value\n",
+             "        dict_[self.key] = value\n        value = self.fire_replace_event(state, dict_, value, old, initiator)\n        dict_[self.key] = value\n"), "C37-R5")
+R.mutant("scalar-object-delete-pops-before-event", ATTR,
+         sub("        self.fire_remove_event(state, dict_, old, self._remove_token)\n\n        existing = dict_.pop(self.key, NO_VALUE)\n\n        # if the attribute is expired",
+             "        existing = dict_.pop(self.key, NO_VALUE)\n        self.fire_remove_event(state, dict_, old, self._remove_token)\n\n        # if the attribute is expired"), "C37-R5")
+R.mutant("pending-append-before-event", ATTR,
+         sub("            value = self.fire_append_event(\n                state, dict_, value, initiator, key=NO_KEY\n            )\n            assert (\n                self.key not in dict_\n            ), \"Collection was loaded during event handling.\"\n            state._get_pending_mutation(self.key).append(value)\n",
+             "            state._get_pending_mutation(self.key).append(value)\n            value = self.fire_append_event(\n                state, dict_, value, initiator, key=NO_KEY\n            )\n"), "C37-R5")
+R.mutant("benign-collection-set-reorder-independent", ATTR,
+         sub("        state._modified_event(dict_, self, old, True)\n\n        old_collection = old._sa_adapter\n",
+             "        old_collection = old._sa_adapter\n        state._modified_event(dict_, self, old, True)\n"), None)
+R.mutant("benign-scalar-set-event-via-local", ATTR,
+         sub("        value = self.fire_replace_event(state, dict_, value, old, initiator)\n        dict_[self.key] = value\n",
+             "        vetted = self.fire_replace_event(state, dict_, value, old, initiator)\n        dict_[self.key] = vetted\n"), None)
+# --- C37-R6
+R.mutant("seed2-list-remove-event-after-removal", COLL,
+         sub("            __del(self, value, _sa_initiator, NO_KEY)\n            # testlib.pragma exempt:__eq__\n            fn(self, value)\n",
+             "            if _sa_initiator is not False:\n                __before_pop(self, _sa_initiator)\n            # testlib.pragma exempt:__eq__\n            fn(self, value)\n            __del(self, value, _sa_initiator, NO_KEY)\n"), "C37-R6")
+R.mutant("list-delitem-event-after-removal", COLL,
+         sub("                item = self[index]\n                __del(self, item, None, index)\n                fn(self, index)\n",
+             "                item = self[index]\n                fn(self, index)\n                __del(self, item, None, index)\n"), "C37-R6")
+R.mutant("has-dupes-true-from-one", "util/_collections.py", sub("            if c > 1:\n                return True\n", "            if c > 0:\n                return True\n"), "C37-R6")
+R.mutant("benign-list-remove-rename", COLL,
+         sub("        def remove(self, value, _sa_initiator=None):\n            __del(self, value, _sa_initiator, NO_KEY)\n            # testlib.pragma exempt:__eq__\n            fn(self, value)\n",
+             "        def remove(self, item, _sa_initiator=None):\n            __del(self, item, _sa_initiator, NO_KEY)\n            # testlib.pragma exempt:__eq__\n            fn(self, item)\n"), None)
